@@ -10,14 +10,19 @@ PROP = dict(
         "bvh_collider_wf / flatten_same_leaves (the driver prints the pruned traversal and, for sound leaves, checks it against the "
         "linear scan); d3/d2: mesh_dist_eq_min(2); kd3/kd2: kd_invariant, kd_contains_iff, kd_nn_eq_min, kd_knn_eq_k_smallest, "
         "kd_sphere_iff (run on the REAL tree); group/bvh: group_bounders_perm, bvh_leaves_perm; slab/pbd kinds validate the faithful "
-        "models of rayCollisionWithBounds / pointToBoundsDistSquared used by slab_prefilter_sound, pt_box_dist_lower_bound, "
-        "sphere_prefilter_sound"
+        "models of rayCollisionWithBounds / pointToBoundsDistSquared used by slab_prefilter_sound, slab_prefilter_exact, "
+        "slab_segment_prefilter_exact, slab_direction_length_irrelevant (the model's decision IS 'the ray / segment meets the box', "
+        "for directions of every length), pt_box_dist_lower_bound, sphere_prefilter_sound"
     ),
     rule=(
         "exact mode: integer / dyadic boxes, points, rays, radii (every float operation of the hierarchy code is exact); object sets of "
         "sizes 0,1,2,3,...,200 with duplicates, flat boxes, equal coordinates along split axes, coincident bounds; queries aimed at the "
         "pruning boundary (rays through box corners/edges, spheres touching a box exactly, query coordinate equal to a split value, "
-        "k-th and (k+1)-th distance equal, k > n, empty structures). Synthetic leaves (canned answers, sound or deliberately unsound) "
+        "k-th and (k+1)-th distance equal, k > n, empty structures). Magnitudes are not restricted to O(1): 40% of the rays have their "
+        "direction multiplied by 2^-100..2^100 (un-normalised, very short / long directions; canned hits move to t/sigma), directions "
+        "with components of very different magnitude (2^-40..4, origin a tiny amount outside a slab), very short segments, and 15-20% "
+        "of the scenes (boxes, primitives, clouds, queries, radii) are multiplied as a whole by 2^-40..2^30 - all exact in float64. "
+        "Synthetic leaves (canned answers, sound or deliberately unsound) "
         "record which leaves the real hierarchy code evaluates; real triangles / segments / points are compared three ways "
         "(implementation, Lean model, harness linear scan). distinct = distinct operation lines"
     ),
@@ -25,7 +30,9 @@ PROP = dict(
         "regenerated, not hand-written: lean/M3d/Gen/Kernels.lean (Go->Lean translator harness/hlib/go2lean, run on the current "
         "source on every check); M3d.KernelsTie.Box.* re-prove against it that pointToBoundsDistSquared and "
         "sphereTouchesBounds/circleTouchesBounds (the pruning bounds of every hierarchy query; axis loop unrolled by the translator) "
-        "and Coord Min/Max/SquaredDist are the model functions ptBoxDistSq3/2, sphereTouches3/2, V.min/max/sqDist of the soundness theorems",
+        "and Coord Min/Max/SquaredDist are the model functions ptBoxDistSq3/2, sphereTouches3/2, V.min/max/sqDist of the soundness theorems, "
+        "and boundsArea is boundsArea3/2 (score of bestSplitAxis); rayCollisionWithBounds is outside the translator's subset (math.Inf) and is "
+        "tied by the slab kinds only",
         "modelled, not verified: pointers as ids; sort.Slice as an arbitrary permutation per axis; areaDensityBVHSplit as an arbitrary in-range split oracle; "
         "splitBounders' index arithmetic as a stable partition (equal under the proved invariant, theorem split_positions)",
         "leaf behaviour (Triangle/Segment ray, sphere, segment, rect, triangle tests; Closest/Dist) is a parameter of the theorems: the only hypothesis is "
@@ -41,7 +48,8 @@ PROP = dict(
         "Theorems (Lean 4, every linear ordered field, every leaf behaviour, every object set incl. duplicates / flat / empty): a generic "
         "branch-and-bound library (pruned search = linear scan for every sound bound: fold, any, collect, count, best; binary trees and n-ary "
         "forests); the bounding-box prefilters of bvh.go never reject a query that meets the box (slab test incl. zero direction components, "
-        "sphere/box incl. touching, box/box incl. touching, point-to-box distance is a lower bound); GroupBounders / newBVH / NewCoordTree only "
+        "sphere/box incl. touching, box/box incl. touching, point-to-box distance is a lower bound); on non-empty boxes the slab test is exact "
+        "(admits iff some t >= 0, resp. 0 <= t <= 1, has its point in the box) and therefore independent of the length of the direction vector; GroupBounders / newBVH / NewCoordTree only "
         "permute their input for every comparison, axis and split oracle; NewJoinedCollider's flattening keeps the leaves; JoinedCollider / "
         "joinedMultiCollider / BVHToObject queries equal the scan over the leaves; meshDistFunc.Dist returns a face at minimal distance; "
         "CoordTree Contains / NearestNeighbor / KNN / SphereCollision equal membership / argmin / k smallest sorted / exists-within-radius. "
@@ -51,6 +59,7 @@ PROP = dict(
     level_note=(
         "Proved about the models in lean/M3d/Model/{Prune,Box,Spatial}.lean. Trusted: Lean kernel, propext/Classical.choice/Quot.sound, the Go "
         "harness and the driver, the modelling of pointers/sorting/split oracles listed above. Leaf routines are parameters (hypothesis: sound "
-        "w.r.t. own box). areaDensityBVHSplit's score arithmetic is not modelled (any in-range split is covered by bvh_leaves_perm)."
+        "w.r.t. own box). areaDensityBVHSplit's score arithmetic is not modelled (any in-range split is covered by bvh_leaves_perm). "
+        "Exactness / length-independence of the slab test assume min <= max per axis (soundness does not)."
     ),
 )
